@@ -1985,3 +1985,10 @@ func (a *C15Action) Resign(nonce uint32) *C15Action {
 	b.Tx = SignedTx(a.From, tx.Type, tx.To, tx.Amount, tx.MaxFee, tx.Tips, nonce, tx.Epoch, tx.Payload)
 	return &b
 }
+
+func bigOrZero(v *big.Int) *big.Int {
+	if v == nil {
+		return new(big.Int)
+	}
+	return v
+}
